@@ -240,7 +240,8 @@ def c_map_from_hashmap(ex, st, callee, a):
 
 # lazy iterator pipelines over maps / vectors:  into_iter() -> map(closure) -> collect()
 @contract(r'^<serde_json::Map<std::string::String, serde_json::Value> as IntoIterator>::into_iter$', r'^<HashMap<std::string::String, serde_json::Value> as IntoIterator>::into_iter$',
-          r'^<Vec<serde_json::Value> as IntoIterator>::into_iter$', r'^HashMap::<std::string::String, Box<dyn erased_serde::Serialize>>::iter$')
+          r'^<Vec<serde_json::Value> as IntoIterator>::into_iter$', r'^HashMap::<std::string::String, Box<dyn erased_serde::Serialize>>::iter$',
+          r'^<HashMap<std::string::String, Box<dyn erased_serde::Serialize>> as IntoIterator>::into_iter$')
 def c_coll_into_iter(ex, st, callee, a): return [(None, ('lazyiter', deref(st, a[0]), None, 'ref' if callee.endswith('::iter') else 'val'))]
 
 
@@ -282,6 +283,7 @@ def c_collect_lazy(ex, st, callee, a):
         else:
             if mode == 'ref':
                 kc, vc = st.new_cell(kg), st.new_cell(('boxed', elem)); arg = tup(('ref', kc, ()), ('ref', vc, ()))
+            elif 'Box<dyn erased_serde::Serialize>' in callee and 'hash_map::IntoIter<std::string::String, Box<' in callee: arg = tup(kg, ('boxed', elem))
             else: arg = tup(kg, elem)
             outs = apply_elem_fn(ex, st, fn, callee, [arg])
             if len(outs) != 1: raise Unsupported('element closure forks (%d outcomes)' % len(outs))
@@ -603,6 +605,18 @@ def json_lemmas(assertions):
     for t in apps.get('json_has', []):
         lem.append(Implies(Not(t), jmember(t.arg(0), t.arg(1)) == JV.Null)); lem.append(Implies(t, jlen(t.arg(0)) >= 1))
         lem.append(Implies(t.arg(0) == EMPTY_OBJ, Not(t)))
+    for t in apps.get('json_obj_of_map', []):
+        # size of a map written as a chain of stores over the empty map (at most 3 stores)
+        p = t.arg(0); ks = []
+        while is_app(p) and p.decl().kind() == Z3_OP_STORE and len(ks) < 4:
+            ks.append((p.arg(1), p.arg(2))); p = p.arg(0)
+        if is_app(p) and p.decl().kind() == Z3_OP_CONST_ARRAY and is_false(p.arg(0)) and ks and all(is_true(v) for _, v in ks):
+            if len(ks) == 1: lem.append(jlen(t) == 1)
+            elif len(ks) == 2: lem.append(jlen(t) == If(ks[0][0] == ks[1][0], 1, 2))
+            elif len(ks) == 3:
+                a_, b_, c_ = ks[0][0], ks[1][0], ks[2][0]
+                lem.append(jlen(t) == If(And(a_ == b_, b_ == c_), 1, If(Or(a_ == b_, b_ == c_, a_ == c_), 2, 3)))
+        elif is_app(p) and p.decl().kind() == Z3_OP_CONST_ARRAY and is_false(p.arg(0)) and not ks: lem.append(jlen(t) == 0)
     for t in apps.get('json_obj_of_map', []):
         for u in apps.get('json_has', []) + apps.get('json_member', []):
             k = u.arg(1)
